@@ -1,68 +1,9 @@
 (* Relational model of the dataset-wide layers over ids: Merge (layers/merge.py), Filter / CheckIds (filter.py,
-   check_ids.py), Join (join.py), GroupBy (group.py), Split (split.py).  Hand-written from the evaluate() bodies
-   (the id makers of Join through the regenerated MiscGen facts); tied to /repo by the correspondence of C14-C17. *)
+   check_ids.py), Join (join.py), GroupBy (group.py), Split (split.py).  The functions on id tables are REGENERATED from the evaluate() bodies
+   (Gen/RelGen.v, the id makers of Join through MiscGen); the comparisons for the case shards below are hand-written. *)
 From Connectome Require Import Values NameSet MiscGen.
+From Connectome Require Export RelBase RelGen.
 Local Open Scope list_scope.
-
-(* ---------- sorted(...) on strings ---------- *)
-Definition sleb (a b : string) : bool := match String.compare a b with Gt => false | _ => true end.
-Fixpoint sinsert (x : string) (l : list string) : list string :=
-  match l with [] => [x] | y :: t => if sleb x y then x :: l else y :: sinsert x t end.
-Definition ssort (l : list string) : list string := fold_right sinsert [] l.
-Fixpoint snodup (l : list string) : list string :=
-  match l with [] => [] | x :: t => if lmem x t then snodup t else x :: snodup t end.
-Definition sset (l : list string) : list string := ssort (snodup l).      (* tuple(sorted(set(l))) *)
-
-(* ---------- Merge ---------- *)
-(* Merge.__init__: id_to_dataset, filled dataset by dataset; an id already present is an error *)
-Fixpoint merge_table_from (k : nat) (dss : list (list string)) (acc : list (string * nat)) : option (list (string * nat)) :=
-  match dss with
-  | [] => Some acc
-  | ds :: rest =>
-      if existsb (fun i => lmem i (map fst acc)) (snodup ds) then None
-      else merge_table_from (S k) rest (acc ++ map (fun i => (i, k)) (snodup ds))
-  end.
-Definition merge_table (dss : list (list string)) : option (list (string * nat)) := merge_table_from 0 dss [].
-Fixpoint slookup {V} (t : list (string * V)) (k : string) : option V :=
-  match t with [] => None | (k', v) :: r => if String.eqb k k' then Some v else slookup r k end.
-Definition merged_ids (t : list (string * nat)) : list string := ssort (map fst t).
-
-(* ---------- Filter / CheckIds ---------- *)
-Definition filter_ids (p : string -> bool) (ids : list string) : list string := filter p ids.
-Definition keep_pred (sel : list string) (i : string) : bool := lmem i sel.
-Definition drop_pred (sel : list string) (i : string) : bool := negb (lmem i sel).
-Definition check_id (ids : list string) (i : string) : bool := lmem i ids.       (* true: the value passes; false: KeyError *)
-
-(* ---------- Join ---------- *)
-(* JoinMapping.evaluate: key -> ids with that key, per side; a key reached twice on one side is an error *)
-Definition keys_of (side : list (string * string)) : list string := snodup (map snd side).
-Definition ids_with (side : list (string * string)) (k : string) : list string :=
-  map fst (filter (fun e => String.eqb (snd e) k) side).
-Definition dup_keys (side : list (string * string)) : bool :=
-  existsb (fun k => Nat.ltb 1 (List.length (ids_with side k))) (keys_of side).
-Definition join_inner (l r : list (string * string)) : list string := filter (fun k => lmem k (keys_of r)) (keys_of l).
-Definition join_left_only (l r : list (string * string)) : list string := filter (fun k => negb (lmem k (keys_of r))) (keys_of l).
-Definition join_right_only (l r : list (string * string)) : list string := filter (fun k => negb (lmem k (keys_of l))) (keys_of r).
-(* ids_maker(how), regenerated: which one-sided key sets are united with the inner one *)
-Definition join_ids (how : join_mode) (l r : list (string * string)) : list string :=
-  sset (join_inner l r ++ (if ids_uses_left how then join_left_only l r else [])
-                       ++ (if ids_uses_right how then join_right_only l r else [])).
-(* id_maker(side): the entry of that side with the key, if any *)
-Definition join_entry (side : list (string * string)) (k : string) : option string := hd_error (ids_with side k).
-
-(* ---------- GroupBy ---------- *)
-Definition group_keys (ids : list string) (key : string -> string) : list string := sset (map key ids).
-Definition group_members (ids : list string) (key : string -> string) (k : string) : list string :=
-  ssort (filter (fun i => String.eqb (key i) k) ids).
-
-(* ---------- Split ---------- *)
-(* SplitMapping.evaluate: {new: (old, part)}; a new id produced twice is an error *)
-Definition split_pairs (ids : list string) (parts : string -> list (string * string)) : list (string * (string * string)) :=
-  flat_map (fun old => map (fun np => (fst np, (old, snd np))) (parts old)) ids.
-Definition split_collides (ids : list string) (parts : string -> list (string * string)) : bool :=
-  let news := map fst (split_pairs ids parts) in negb (Nat.eqb (List.length (snodup news)) (List.length news)).
-Definition split_ids (ids : list string) (parts : string -> list (string * string)) : list string :=
-  ssort (map fst (split_pairs ids parts)).
 
 (* ---------- comparison helpers for the case shards ---------- *)
 Definition sl_eqb := list_eqb String.eqb.
